@@ -776,7 +776,15 @@ func (c *Ctx) checkCursor(cp *ana.Prog, f *ssa.Function) {
 		ex := cp.Expr(cur.site.Common().Args[len(cur.site.Common().Args)-1], 0)
 		switch ex {
 		case "field:BlockResponse.Height":
-			// whole block processed: nothing more to show
+			// whole block processed: no event of this block may still be counted after the commit (a commit with
+			// cursor = height ahead of the block's events persists a cursor whose nonce lags the block)
+			for _, ad := range advances {
+				after := (ad.in.Block() == cm.in.Block() && ana.InstrIndex(ad.in) > ana.InstrIndex(cm.in)) || (ad.in.Block() != cm.in.Block() && reachDAG(cm.in.Block(), ad.in.Block()))
+				if after {
+					okAll = false
+					r.Bad("C20.cursor", "commit-before-count:"+fname(f)+":"+ad.name, cp.InstrPos(cm.in), "the status is committed with cursor = block height before "+ad.name+" is advanced for the events of that block (at "+cp.InstrPos(ad.in)+"): a crash in between persists a cursor whose nonce is below start + events at or below the last-checked block")
+				}
+			}
 		case "(field:BlockResponse.Height-1)":
 			// early exit before the end of the block: every counter advanced earlier in this iteration must have been restored
 			for _, ad := range advances {
